@@ -469,6 +469,24 @@ func checkC15(c *Check) {
 				})
 				return hit
 			})
+			// Judged in the world in which every verdict of the decision function is a plain refusal (res.Reason != nil,
+			// not temporary): there, handing a verdict on (`return res`) refuses – under whatever condition it is done
+			// (`if res.Reason == nil || IsTemporary(res.Reason) { return res }`) – and the only accepting returns are
+			// an empty result, or a result variable that does not hold a verdict of the decision function.
+			isVerdictReason := func(e ast.Expr) bool {
+				s, ok := ast.Unparen(e).(*ast.SelectorExpr)
+				return ok && s.Sel.Name == "Reason" && resObjs[objOf(info, s.X)]
+			}
+			refusals := rm.F.World(func(atom ast.Expr) (bool, bool) {
+				atom = ast.Unparen(atom)
+				if be, ok := atom.(*ast.BinaryExpr); ok && (be.Op == token.EQL || be.Op == token.NEQ) && isNilIdent(info, be.Y) && isVerdictReason(be.X) {
+					return be.Op == token.NEQ, true
+				}
+				if call, ok := atom.(*ast.CallExpr); ok && len(call.Args) == 1 && isVerdictReason(call.Args[0]) && isCall(info, call, "~/framework/exterrors.IsTemporary", "~/framework/exterrors.IsTemporaryOrUnspec") {
+					return false, true
+				}
+				return false, false
+			})
 			accept := func(pt Pt) bool {
 				_, ret := rm.F.Exit(pt)
 				if ret == nil || len(ret.Results) != 1 {
@@ -478,18 +496,27 @@ func checkC15(c *Check) {
 				if cl, ok := e.(*ast.CompositeLit); ok && len(cl.Elts) == 0 {
 					return true
 				}
-				return resObjs[objOf(info, e)]
-			}
-			// after the first header access, an accepting return needs an edge establishing res.Reason == nil
-			okEdge := rm.F.AvoidImplying(func(atom ast.Expr) (bool, bool) {
-				if be, ok := ast.Unparen(atom).(*ast.BinaryExpr); ok && (be.Op == token.EQL || be.Op == token.NEQ) && isNilIdent(info, be.Y) {
-					if s, ok := ast.Unparen(be.X).(*ast.SelectorExpr); ok && s.Sel.Name == "Reason" && resObjs[objOf(info, s.X)] {
-						return be.Op == token.EQL, true
+				o := objOf(info, e)
+				if o == nil {
+					return false
+				}
+				if !resObjs[o] {
+					return false
+				}
+				// a result variable: every definition that reaches the return is a call of the decision function
+				defs, okD := rm.ReachingDefs(o, pt, refusals)
+				if !okD {
+					return true
+				}
+				for _, d := range defs {
+					call, isCall := ast.Unparen(d).(*ast.CallExpr)
+					if !isCall || methodName(call) != "authzSender" {
+						return true
 					}
 				}
-				return false, false
-			})
-			if path, f := rm.F.Reach(Query{From: firstHdr, Target: accept, AvoidEdge: okEdge}); f {
+				return false
+			}
+			if path, f := rm.F.Reach(Query{From: firstHdr, Target: accept, AvoidEdge: refusals}); f {
 				msg = "the header check can accept without an accepting authorization result: " + rm.F.Describe(path)
 			}
 		}
